@@ -547,9 +547,22 @@ func reifyMergeValue(
 		if err != nil {
 			return reflect.Value{}, raiseExpectedObject(opts.opts, val)
 		}
+		if !old.CanSet() {
+			// a struct held BY VALUE in an interface: merge into a copy, which replaces it
+			tmp := reflect.New(old.Type()).Elem()
+			tmp.Set(old)
+			old = tmp
+			oldValue = tmp
+		}
 		return oldValue, reifyStruct(opts.opts, old, sub)
 
 	case reflect.Array:
+		if !old.CanSet() {
+			// likewise an array held by value in an interface
+			tmp := reflect.New(old.Type()).Elem()
+			tmp.Set(old)
+			old = tmp
+		}
 		return reifyArray(opts, old, baseType, val)
 
 	case reflect.Slice:
